@@ -508,6 +508,12 @@ def call_values(I, c, args, e=None, env=None):
     if tr in ("Neg", "RefNeg") and isinstance(args[0], Num) and local_body(I, c) is None:
         return Num(-args[0].expr)
     if tr == "Clone" and name == "clone":
+        # a derived (or std) Clone copies; a hand-written impl in the crate is what its body says
+        lb_ = local_body(I, c)
+        if lb_ is not None:
+            rec_ = next((fn_ for fn_ in I.f.items["fns"] if fn_["path"] == lb_), None)
+            if rec_ is not None and not rec_.get("impl_derived"):
+                return I.run_fn(lb_, args, None)
         return args[0]
     if tr in ("PartialOrd", "PartialEq") and name in ("lt", "le", "gt", "ge", "eq", "ne"):
         opn = {"lt": "Lt", "le": "Le", "gt": "Gt", "ge": "Ge", "eq": "Eq", "ne": "Ne"}[name]
